@@ -118,8 +118,9 @@ def run(ctx, only=None):
             fails.append(Failure(c, f"{describe(c)[:300]}: first outcome {outs[0][:200]}, the property demands {exp[:200]}"))
         # after the first non-response outcome the layer must keep answering with non-fabricated outcomes
         term = [o for o in outs if not o.startswith("resp[") and not o.startswith("connected:")]
-        if c.startswith("recv") and len(term) != 4 and not out.startswith("connect:"):
-            fails.append(Failure(c, f"expected 4 terminal outcomes (1 + 3 further calls), got {len(term)}: {out[:300]}"))
+        want = 1 + int(c.split(" ")[2])
+        if c.startswith("recv") and len(term) != want and not out.startswith("connect:"):
+            fails.append(Failure(c, f"expected {want} terminal outcomes (1 + {want - 1} further calls), got {len(term)}: {out[:300]}"))
     if only is not None:
         print_replay(cases, impl, model, fails)
     dist = {"cases": len(cases), "edge_cases": len(EDGE) + len(EDGE_CONNECT),
